@@ -125,6 +125,15 @@ impl Recorder {
 
     /// Record a violation (deduplicated by signature) and write its replay file.
     pub fn violation(&self, verif_dir: &Path, prop: &str, sub: &str, fail: &Fail, case: Value) {
+        if fail.sig.contains("/INFRA/") {
+            // timeouts, worker problems: inconclusive, never a violation; keep the case for inspection
+            let dir = verif_dir.join("replays").join(prop).join("found");
+            let _ = std::fs::create_dir_all(&dir);
+            let path = dir.join(format!("inconclusive-{:016x}.json", fxhash(fail.msg.as_bytes())));
+            let _ = std::fs::write(&path, serde_json::to_vec(&json!({"property": prop, "sub": sub, "signature": fail.sig, "message": fail.msg, "case": case})).unwrap_or_default());
+            self.infra(&format!("{sub}: {} [{}] case saved to {}", fail.msg, fail.sig, path.display()));
+            return;
+        }
         let mut g = self.inner.lock().unwrap();
         if g.violations.iter().any(|v| v.sig == fail.sig) {
             return;
